@@ -21,6 +21,9 @@ CHECKS['C06'] = dict(cat='model_checking', tech='explicit-state BFS over all ite
 CHECKS['C14'] = dict(cat='model_checking', tech='deviation-bounded exhaustive enumeration of handler programs (all assignments of <=k non-default answers to callback invocations) on the real cif_walk, reference walker as oracle',
       text='For 9 CIF shapes every handler program with at most 2 (quick) / 3 (thorough) non-CONTINUE answers out of {SKIP_CURRENT, SKIP_SIBLINGS, END, CIF_CLIENT_ERROR, CIF_ERROR} placed at any callback invocation is executed with the real cif_walk in the ASan/UBSan build; each callback queries the handle it was given. The complete callback log, the return value and the transaction state afterwards are checked by a reference walker that knows the shape.',
       note='Sibling order is unspecified (elements matched by identity). Whether an end callback is delivered after its element or a child answered SKIP_* is not pinned down by the statement and both are admitted. Shapes have no packet-less loops.', ref='C14')
+CHECKS['C19'] = dict(cat='model_checking', tech='explicit-state BFS over value/list/table/packet operation sequences on the real library under ASan/UBSan, ownership-aware Python value model, dedup on deep dumps',
+      text='Breadth-first exploration of all operation sequences (create/init/copy/parse/clone/clean/free; list insert/set/get/remove at index 0, last, size, size+1 incl. the alias case and capacity steps; table and packet set/get/remove with case / NFC / NFD / empty / invalid keys; wrong-kind calls) on two owned value slots, two borrowed member references and one packet up to depth 5 (quick) / 6 (thorough). After every transition the return code and the deep dump of every live object are compared with the model; ASan/UBSan judge every execution.',
+      note='The model drops borrowed references after a structural change of their container (their validity is unspecified). Table key order is compared as a set, packet name order as a sequence.', ref='C19')
 NOT_APPLICABLE = {}
 
 def main():
